@@ -66,3 +66,22 @@ Proof.
   cbn. destruct i; discriminate.
 Qed.
 
+
+(* ---------- where the manager writes into a peer's address store ---------- *)
+
+(* every write site of src/transport/manager/*.rs and the model operation that covers it:
+     add_known_address                          OAdd (insert_all of the accepted set, score 0)
+     dial_address                               ODialAddr, first insert (score 0)
+     update_address_on_dial_failure             ODialFailure; the failed attempts of ODial; the
+                                                DialFailure result of ODialAddr (error_score)
+     update_address_on_connection_established   OEstablished; the success of ODial / ODialAddr
+     on_connection_opened                       the success of ODial (first of its two inserts) *)
+Definition model_store_sites : list (string * string * string) :=
+  [("handle.rs", "add_known_address", "extend");
+   ("mod.rs", "dial_address", "insert");
+   ("mod.rs", "update_address_on_dial_failure", "insert");
+   ("mod.rs", "update_address_on_connection_established", "insert");
+   ("mod.rs", "on_connection_opened", "insert")]%string.
+
+Lemma store_sites_in_sync : model_store_sites = DialErrors.store_sites.
+Proof. reflexivity. Qed.
